@@ -95,6 +95,18 @@ void h_send(void)
       if (SYM_PART == 1) req->client = c0;
       if (SYM_PART == 2) req->remote_port = p0;
       if (SYM_PART == 3) for (i = 0; i < IRC_NTOP_MAX; i++) req->text_addr[i] = a0[i];
+#ifdef SYM_DIGITS
+      /* one job per printed length (ids of 1-7 digits, ports of 1-5 digits, address texts of 1-8 bytes) */
+      {
+          static const long lo[8] = { 0, 0, 10, 100, 1000, 10000, 100000, 1000000 }, hi[8] = { 0, 9, 99, 999, 9999, 99999, 999999, 9999999 };
+          long lo_ = SYM_DIGITS == 1 ? 0 : SYM_DIGITS == 2 ? 10 : SYM_DIGITS == 3 ? 100 : SYM_DIGITS == 4 ? 1000 : SYM_DIGITS == 5 ? 10000 : SYM_DIGITS == 6 ? 100000 : 1000000;
+          long hi_ = SYM_DIGITS == 1 ? 9 : SYM_DIGITS == 2 ? 99 : SYM_DIGITS == 3 ? 999 : SYM_DIGITS == 4 ? 9999 : SYM_DIGITS == 5 ? 99999 : SYM_DIGITS == 6 ? 999999 : 9999999;
+          (void)lo; (void)hi;
+          if (SYM_PART == 1) V_ASSUME(req->client >= lo_ && req->client <= hi_);
+          if (SYM_PART == 2) V_ASSUME((long)req->remote_port >= lo_ && (long)req->remote_port <= hi_);
+          if (SYM_PART == 3) { for (i = 0; i < 8; i++) if (i < SYM_DIGITS) V_ASSUME(req->text_addr[i] != '\0'); req->text_addr[SYM_DIGITS] = '\0'; }
+      }
+#endif
     }
 #endif
 #ifdef CONCRETE_PREFIX
